@@ -127,7 +127,7 @@ ALTER TABLE {{.DB}}.metrics_15s {{.OnCluster}}
     ADD COLUMN IF NOT EXISTS type UInt8,
     MODIFY ORDER BY (fingerprint, timestamp_ns, type);
 
-RENAME TABLE {{.DB}}.time_series_gin_view TO time_series_gin_view_bak {{.OnCluster}};
+RENAME TABLE IF EXISTS {{.DB}}.time_series_gin_view TO time_series_gin_view_bak {{.OnCluster}};
 
 CREATE MATERIALIZED VIEW IF NOT EXISTS {{.DB}}.time_series_gin_view {{.OnCluster}} TO time_series_gin
 AS SELECT
@@ -141,7 +141,7 @@ ARRAY JOIN JSONExtractKeysAndValues(time_series.labels, 'String') as pairs;
 
 DROP TABLE IF EXISTS {{.DB}}.time_series_gin_view_bak {{.OnCluster}};
 
-RENAME TABLE {{.DB}}.metrics_15s_mv TO metrics_15s_mv_bak {{.OnCluster}};
+RENAME TABLE IF EXISTS {{.DB}}.metrics_15s_mv TO metrics_15s_mv_bak {{.OnCluster}};
 
 CREATE MATERIALIZED VIEW IF NOT EXISTS {{.DB}}.metrics_15s_mv {{.OnCluster}} TO metrics_15s
 AS SELECT
@@ -160,13 +160,13 @@ GROUP BY fingerprint, timestamp_ns, type;
 DROP TABLE IF EXISTS {{.DB}}.metrics_15s_mv_bak {{.OnCluster}};
 
 ALTER TABLE time_series
-    (ADD COLUMN `type_v2` UInt8 ALIAS type);
+    (ADD COLUMN IF NOT EXISTS `type_v2` UInt8 ALIAS type);
 
 ALTER TABLE time_series_gin
-    (ADD COLUMN `type_v2` UInt8 ALIAS type);
+    (ADD COLUMN IF NOT EXISTS `type_v2` UInt8 ALIAS type);
 
 ALTER TABLE samples_v3
-    (ADD COLUMN `type_v2` UInt8 ALIAS type);
+    (ADD COLUMN IF NOT EXISTS `type_v2` UInt8 ALIAS type);
 
 ALTER TABLE metrics_15s
-    (ADD COLUMN `type_v2` UInt8 ALIAS type);
+    (ADD COLUMN IF NOT EXISTS `type_v2` UInt8 ALIAS type);
